@@ -785,7 +785,9 @@ static void c16_mutant (const Seed *s, const Mut *m, int routes_mask, int pairs)
 	(void) pairs ;
 	plan_mode [plan_n] = SFM_READ ; plan_route [plan_n ++] = R_VIO ;
 	if (routes_mask & (1 << HR_FD)) { plan_mode [plan_n] = SFM_READ ; plan_route [plan_n ++] = R_PATH ; }
-	if (m->kind == M_IDENT || m->kind == M_TRUNC || (m->kind >= M_CDEL && m->kind <= M_CSHRINK) || vl_opts.thorough) { plan_mode [plan_n] = SFM_RDWR ; plan_route [plan_n ++] = R_VIO ; }
+	if (m->kind == M_IDENT || m->kind == M_TRUNC || (m->kind >= M_CDEL && m->kind <= M_CSHRINK) || vl_opts.thorough
+		|| ((m->kind == M_BYTE || m->kind == M_W16 || m->kind == M_W32) && hc_is_reference (s)))	/* quick: byte / word edits of the reference seeds too (this is where the failed read/write opens that rewrote the header were) */
+	{	plan_mode [plan_n] = SFM_RDWR ; plan_route [plan_n ++] = R_VIO ; }
 	for (int k = 0 ; k < plan_n ; k++)
 	{	if (! vl_peek ()) { vl_skip (1) ; continue ; }
 		if (! described) { hc_describe (m, desc, sizeof (desc)) ; described = 1 ; }
